@@ -190,7 +190,28 @@ def col_counter(eng, args, kwargs, node):
     return c
 
 
+class NamedTupleType:
+    """collections.namedtuple('Name', 'a b c'): instances are records with those fields (tuple indexing supported)"""
+
+    def __init__(self, name, fields):
+        self.name = name
+        self.fields = fields
+
+
+def col_namedtuple(eng, args, kwargs, node):
+    fields = args[1].replace(',', ' ').split() if isinstance(args[1], str) else list(args[1])
+    return NamedTupleType(args[0], fields)
+
+
+def make_namedtuple(eng, nt, args, kwargs):
+    vals = list(args) + [kwargs[f] for f in nt.fields[len(args):]]
+    o = Obj(nt.name, dict(zip(nt.fields, vals)))
+    o.vc_fields = nt.fields
+    return o
+
+
 TABLE = {
+    'collections.namedtuple': col_namedtuple,
     'numpy.ceil': np_ceil, 'numpy.floor': np_floor, 'math.ceil': math_ceil, 'math.floor': math_floor,
     'itertools.chain': it_chain, 'itertools.product': it_product, 'itertools.combinations': it_combinations,
     'more_itertools.windowed': mi_windowed,
